@@ -16,30 +16,6 @@ namespace Nstd.Str
 /-- the states reachable from the initial state by any history of API calls -/
 def Reach (n : Nat) (regs : Nat → List Nat) (s : St) : Prop := ∃ ops, run (init n regs) ops = some s
 
-theorem good_step {s s' : St} (g : Good s) {op : Op} (e : step s op = some s') : Good s' := by
-  obtain ⟨val, E, _⟩ := step_ok g e
-  have hu : userVars s' = userVars s := by simp only [userVars, E.n]
-  refine ⟨E.inv, fun u hu' => ?_⟩
-  rw [hu] at hu'
-  have hne : u ≠ op.target := by
-    intro x; subst x
-    -- the target of a call that did not fail is a user variable
-    have : validVar s op.target = true := by
-      cases op <;> simp only [step] at e <;> split at e <;> first | (rename_i c; first | exact c.1 | exact c) | cases e
-    have := (valid_facts this).2.1
-    have : op.target < userVars s := by
-      have h2 : validVar s op.target = true := by assumption
-      unfold validVar at h2; exact of_decide_eq_true h2
-    omega
-  rw [E.other u hne]; exact g.temps u hu'
-
-theorem good_run {s s' : St} (g : Good s) : ∀ {ops : List Op}, run s ops = some s' → Good s'
-  | [], e => by simp only [run, Option.some.injEq] at e; subst e; exact g
-  | op :: ops, e => by
-    simp only [run, Option.bind_eq_some_iff] at e
-    obtain ⟨s1, h1, e⟩ := e
-    exact good_run (good_step g h1) e
-
 /-- every reachable state satisfies the heap invariant -/
 theorem reach_good {n : Nat} {regs : Nat → List Nat} {s : St} (r : Reach n regs s) : Good s := by
   obtain ⟨ops, e⟩ := r
@@ -147,10 +123,6 @@ theorem no_fault {n : Nat} {regs : Nat → List Nat} {s : St} (r : Reach n regs 
     (va : ValidArgs s op) (dom : (Spec.newVal s.regs (absVar s) op).isSome = true) : ∃ s', step s op = some s' :=
   step_total_all (reach_good r) va dom
 
-theorem validArgs_congr {s s1 : St} (hn : s1.n = s.n) (hr : s1.regs = s.regs) (op : Op) :
-    ValidArgs s1 op ↔ ValidArgs s op := by
-  cases op <;> simp only [ValidArgs, validVar, userVars, hn, hr] <;> exact Iff.rfl
-
 /-- **Specified histories run to the specified state**: a history with valid arguments that the
     specification accepts executes on the model without any fault, and ends with every variable holding
     the reference bytes (no_fault and refines together, from the initial state). -/
@@ -177,11 +149,23 @@ theorem run_total {s : St} (g : Good s) : ∀ {ops : List Op} {σ' : Nat → Lis
       (by rw [E.regs, eqf]; exact es)
     exact ⟨s', by simp only [run, h1, Option.bind_some]; exact hr, hw⟩
 
-/- OPEN: no_fault for the queries
-   the read-only calls (compare…, find…, startsWith/endsWith, toBool, hash, split) are not part of `Op`;
-   their absence of faults under "specified, NUL-free chars" is not stated here.  Their results are
-   related to the values by the query lemmas below; faults of the real code on these calls are looked for
-   by the correspondence run (ASan, exactly sized buffers). -/
+/-- **No fault, queries**: on variables whose chars are specified and NUL-free the comparisons, the
+    searches, `split`, `find(char)` and `operator==` perform no out-of-range or uninitialised read
+    (their C string views included) — for any two variables, also the same one twice. -/
+theorem no_fault_queries {n : Nat} {regs : Nat → List Nat} {s : St} (r : Reach n regs s) {v w : Nat}
+    (hv : validVar s v = true) (hw : validVar s w = true) {a b : List Nat}
+    (ha : allSome (absVar s v) = some a) (hb : allSome (absVar s w) = some b)
+    (hza : ∀ x ∈ a, x ≠ 0) (hzb : ∀ x ∈ b, x ≠ 0) (k : Nat) (needle : List Nat) (skip : Bool) (c : Nat) :
+    (compareS s v w).isSome ∧ (compareN s v w k).isSome ∧ (compareIC s v w).isSome ∧ (compareICN s v w k).isSome ∧
+    (findS s v needle).isSome ∧ (findLastS s v needle).isSome ∧ (findOneOf s v needle).isSome ∧
+    (findLastOf s v needle).isSome ∧ (split s v needle skip).isSome ∧
+    (findC s v c).isSome ∧ (findLastC s v c).isSome ∧ (equalS s v w).isSome :=
+  queries_total (reach_good r).inv (valid_facts hv).1 (valid_facts hw).1 ha hb hza hzb k needle skip c
+
+/- OPEN: the remaining read-only calls
+   startsWith / endsWith, find(char, start), find(str, start), findOneOf(chars, start), toBool, hash: their
+   absence of faults and (except startsWith) their results are not stated here; they are compared with the
+   Python reference on every small argument by the correspondence run (ASan, exactly sized buffers). -/
 
 /-! ### query lemmas: the answers are the libc reference functions applied to the values -/
 
